@@ -64,9 +64,9 @@ def run(ctx):
     ask = [n.id for n in gc.nodes if n.kind == "test" and "get_boolean" in norm(n.ast)]
     din = calling(gc, name="delete_items")
     if ask:
-        cut = {(t, b, l) for t in ask for (b, l) in gc.succ[t] if l == "F"}
-        g_noprompt = gc.assume({"no_prompt": False, "not no_prompt": True})
-        r = g_noprompt.copy_without(cut).reachable_from_entry()
+        env_decl = {"no_prompt": False, "not no_prompt": True}
+        env_decl.update({norm(gc.nodes[t].ast): False for t in ask})  # the user answered no
+        r = gc.assume(env_decl).reachable_from_entry()
         ctx.check("prompt-respected", wc, not (set(din) & r), "without no_prompt, deletion happens only after the user confirmed")
     # ---- iter_deletables ---------------------------------------------------------------
     fn, g, where = fn_cfg(ctx, CT, "iter_deletables", roles={"subp": ("for", "~tree\\.\\w+\\(\\)")})
